@@ -86,6 +86,9 @@ def alias_renamed(j, pinned):
     claims = {}
     for m in missing:
         cands = [n for n in new if _module(n) == _module(m) and signature(bodies[n]) == pinned[m]]
+        if not cands:
+            # moved to another module / file under the same name
+            cands = [n for n in new if n.rsplit("::", 1)[-1] == m.rsplit("::", 1)[-1] and signature(bodies[n]) == pinned[m]]
         if len(cands) == 1:
             claims.setdefault(cands[0], []).append(m)
     for n, ms in claims.items():
